@@ -96,11 +96,48 @@ def opTreeDecode (j : Json) : Except String Json := do
     | none => pure <| Json.mkObj [("decoded", Json.null)]
     | some ts => pure <| Json.mkObj [("decoded", jTriples ts)]
 
+/-! #### C05 snapshots -/
+
+def parseBranch (j : Json) : Except String Branch := do
+  let name ← getB j "name"
+  let kind ← getS j "kind"
+  match kind with
+  | "dangling" => pure (name, .dangling)
+  | "alias" => do let t ← getB j "target"; pure (name, .alias t)
+  | "content" => do let t ← getB j "target"; pure (name, .obj .content t)
+  | "directory" => do let t ← getB j "target"; pure (name, .obj .directory t)
+  | "revision" => do let t ← getB j "target"; pure (name, .obj .revision t)
+  | "release" => do let t ← getB j "target"; pure (name, .obj .release t)
+  | "snapshot" => do let t ← getB j "target"; pure (name, .obj .snapshot t)
+  | _ => throw s!"bad branch kind {kind}"
+
+def jPairs (ps : List (Bytes × Bytes)) : Json :=
+  Json.arr (ps.map (fun (a, b) => Json.arr #[jB a, jB b])).toArray
+
+def opSnpManifest (j : Json) : Except String Json := do
+  let bs ← (← getArr j "branches").toList.mapM parseBranch
+  let ig ← getBool j "ignore"
+  match snapshotManifest bs ig with
+  | .ok m => pure <| Json.mkObj [("manifest", jB m), ("idmanifest", jB (snapshotIdManifest bs))]
+  | .error u => pure <| Json.mkObj [("unresolved", jPairs u), ("idmanifest", jB (snapshotIdManifest bs))]
+
+def opSnpDecode (j : Json) : Except String Json := do
+  let bs ← getB j "bytes"
+  match stripGitHeader snapshotTy bs with
+  | none => pure <| Json.mkObj [("decoded", Json.null)]
+  | some body =>
+    match decodeSnapshot body with
+    | none => pure <| Json.mkObj [("decoded", Json.null)]
+    | some ts => pure <| Json.mkObj [("decoded",
+        Json.arr (ts.map (fun (k, n, t) => Json.arr #[jB k, jB n, jB t])).toArray)]
+
 def dispatch (op : String) (j : Json) : Except String Json :=
   match op with
   | "ping" => pure (Json.mkObj [("pong", Json.bool true)])
   | "dir_manifest" => opDirManifest j
   | "tree_decode" => opTreeDecode j
+  | "snp_manifest" => opSnpManifest j
+  | "snp_decode" => opSnpDecode j
   | _ => throw s!"unknown op {op}"
 
 def handleLine (line : String) : String :=
